@@ -92,6 +92,14 @@ impl MultiplexerSource {
             .remove(meta)
             .is_some()
         {
+            #[cfg(trusttunnel_verif)]
+            crate::verif_emit!(
+                "SockClose",
+                "\"s\":\"{}\",\"d\":\"{}\",\"cause\":\"error\",\"found\":true,\"kind\":\"{:?}\"",
+                meta.source,
+                meta.destination,
+                error.kind()
+            );
             self.pending_closures.push_back((*meta, error));
         }
     }
@@ -170,6 +178,9 @@ impl MultiplexerSource {
 #[async_trait]
 impl forwarder::UdpDatagramPipeShared for MultiplexerShared {
     async fn on_new_udp_connection(&self, meta: &downstream::UdpDatagramMeta) -> io::Result<()> {
+        #[cfg(trusttunnel_verif)]
+        let mut verif_outcome =
+            crate::verif::udp::Outcome::new("SockOpen", meta.source, meta.destination);
         match self
             .connections
             .lock()
@@ -184,12 +195,26 @@ impl forwarder::UdpDatagramPipeShared for MultiplexerShared {
                     being_listened: false,
                     _metrics_guard: metrics_guard,
                 });
+                #[cfg(trusttunnel_verif)]
+                verif_outcome.ok();
                 Ok(())
             }
         }
     }
 
     fn on_connection_closed(&self, meta: &forwarder::UdpDatagramMeta) {
+        // the event carries the ARGUMENT as given (its orientation is the point)
+        #[cfg(trusttunnel_verif)]
+        crate::verif_emit!(
+            "SockClose",
+            "\"s\":\"{}\",\"d\":\"{}\",\"cause\":\"closed\",\"found\":{}",
+            meta.source,
+            meta.destination,
+            self.connections
+                .lock()
+                .unwrap()
+                .contains_key(&meta.reversed())
+        );
         self.connections.lock().unwrap().remove(&meta.reversed());
     }
 }
@@ -232,6 +257,9 @@ impl datagram_pipe::Sink for MultiplexerSink {
         datagram: downstream::UdpDatagram,
     ) -> io::Result<datagram_pipe::SendStatus> {
         let meta = forwarder::UdpDatagramMeta::from(&datagram.meta);
+        #[cfg(trusttunnel_verif)]
+        let mut verif_outcome =
+            crate::verif::udp::Outcome::new("SinkWrite", meta.source, meta.destination);
         let socket = self
             .shared
             .connections
@@ -240,8 +268,12 @@ impl datagram_pipe::Sink for MultiplexerSink {
             .get(&meta)
             .map(|c| c.socket.clone())
             .ok_or_else(|| io::Error::from(ErrorKind::NotFound))?;
+        #[cfg(trusttunnel_verif)]
+        verif_outcome.stage("send");
 
         socket.send(datagram.payload.as_ref()).await?;
+        #[cfg(trusttunnel_verif)]
+        verif_outcome.ok();
 
         if let Some(conn) = self.shared.connections.lock().unwrap().get_mut(&meta) {
             if !conn.being_listened {
